@@ -521,8 +521,8 @@ pub fn run(ctx: &Ctx) -> Report {
     );
     rep.assume("reference tokenizer (harness/src/refimpl/tokenizer.rs) is a faithful transcription of WHATWG HTML 13.2.5; entity table from Python's html.entities.html5");
     rep.assume("cold starts are asserted only for token-free states; other states are entered through priming prefixes");
-    report_known(ctx, &mut rep, &|v| replay(ctx, v));
-    run_regressions(ctx, &mut rep, &|v| replay(ctx, v));
+    report_known(ctx, &mut rep, &|v| replay(&ctx.strict_clone(), v));
+    run_regressions(ctx, &mut rep, &|v| replay(&ctx.strict_clone(), v));
 
     // validate priming prefixes against the reference
     let sts = starts();
